@@ -40,5 +40,68 @@ func propSpecs() map[string]*PropSpec {
 		Outside: []string{"sources longer than the bound", "the command-line consumer (C16)"},
 		Stubs:   []string{"unicode.IsSpace -> models.IsSpace", "utf8 decode: engine model", "strings.{TrimLeft,ReplaceAll} -> models"},
 	})
+	seeds := func(h string, n int64) []RunSpec {
+		var r []RunSpec
+		for i := int64(0); i < 12; i++ {
+			r = append(r, rs(h, i, n))
+		}
+		return r
+	}
+	tokRuns := func(h string, maxK int64, vocab int64) []RunSpec {
+		var r []RunSpec
+		for k := int64(0); k <= maxK; k++ {
+			r = append(r, rs(h, k, vocab))
+		}
+		return r
+	}
+	tokStub := "parser.Scan summarised on token-slot sources from tables derived on this run from the real Scan (78 lexemes; one-token locality validated on all lexeme pairs); native replays use the real Scan"
+	add(&PropSpec{
+		ID: "C08", Title: "the parser accepts only what its tree represents",
+		Quick:    append(tokRuns("H_C08", 6, 0), seeds("H_C08seed", 1)...),
+		Thorough: append(append(tokRuns("H_C08", 7, 0), seeds("H_C08seed", 1)...), seeds("H_C08seed", 2)...),
+		Covers:   []string{"accepted", "rejected"},
+		Bounds: map[string]string{"quick": "all token sequences of length <= 6 over the full 78-lexeme vocabulary (error lexemes included); 12 seed programs of 6-22 tokens with one arbitrary corruption (delete / insert arbitrary token / replace by arbitrary token / duplicate / transpose / truncate at an arbitrary position)",
+			"thorough": "all token sequences of length <= 7; seeds with one and two corruptions"},
+		Outside: []string{"longer uncorrupted token soups", "lexeme-internal corruption (C09 covers the lexer)"},
+		Stubs:   []string{tokStub},
+	})
+	add(&PropSpec{
+		ID: "C10", Title: "source positions in tokens and syntax trees are exact",
+		Quick:    append(tokRuns("H_C10", 5, 0), seeds("H_C10seed", 1)...),
+		Thorough: append(append(tokRuns("H_C10", 6, 0), seeds("H_C10seed", 1)...), seeds("H_C10seed", 2)...),
+		Covers:   []string{"accepted", "rejected", "spans-checked"},
+		Bounds: map[string]string{"quick": "all accepted token sequences of length <= 5 over the full vocabulary; 12 seed programs with one arbitrary corruption",
+			"thorough": "length <= 6; seeds with one and two corruptions"},
+		Outside: []string{"multi-byte layout between tokens inside token slots (token spans themselves are C09's subject)"},
+		Stubs:   []string{tokStub},
+	})
+	add(&PropSpec{
+		ID: "C11", Title: "tree traversal reaches every node exactly once and never fails", OwnsPanic: true,
+		Quick:    append(tokRuns("H_C11", 5, 0), seeds("H_C11seed", 1)...),
+		Thorough: append(append(tokRuns("H_C11", 6, 0), seeds("H_C11seed", 1)...), seeds("H_C11seed", 2)...),
+		Covers:   []string{"accepted", "walk-checked", "skip-checked"},
+		Bounds: map[string]string{"quick": "all accepted token sequences of length <= 5 over the full vocabulary; 12 seed programs with one arbitrary corruption; the skipped node index is arbitrary",
+			"thorough": "length <= 6; seeds with one and two corruptions"},
+		Outside: []string{"trees deeper than the bounded programs produce"},
+		Stubs:   []string{tokStub},
+	})
+	seeds13 := func(n int64) []RunSpec {
+		var r []RunSpec
+		for i := int64(0); i < 20; i++ {
+			r = append(r, rs("H_C13seed", i, n))
+		}
+		return r
+	}
+	add(&PropSpec{
+		ID: "C13", Title: "Compile returns SQL or an error, and rejects every documented misuse",
+		Quick:    append(append([]RunSpec{rs("H_C13a", 1, 0), rs("H_C13a", 2, 0), rs("H_C13a", 3, 5)}, tokRuns("H_C13b", 5, 0)...), seeds13(1)...),
+		Thorough: append(append(append([]RunSpec{rs("H_C13a", 1, 0), rs("H_C13a", 2, 0), rs("H_C13a", 3, 0), rs("H_C13a", 5, 5)}, tokRuns("H_C13b", 6, 0)...), seeds13(1)...), seeds13(2)...),
+		Covers:   []string{"accepted", "rejected", "breaks-rule", "keeps-rules", "compiled", "compile-error"},
+		Bounds: map[string]string{"quick": "either/or: all byte strings of length <= 2, <= 3 focused, 5 parameter maps; exactly-when: all token sequences of length <= 5 over the full vocabulary and 20 seed programs (calls, joins, lets at depth) with one arbitrary corruption",
+			"thorough": "bytes <= 3 (<= 5 focused); token sequences <= 6; seeds with one and two corruptions"},
+		Outside: []string{"render property values (not an expression position of the rule list)", "parameter maps in the exactly-when part (covered by C06)", "programs beyond the bounds"},
+		Stubs:   []string{tokStub},
+		Assume:  []string{"rule predicates R1-R4 are evaluated on the real parser's tree (C07 checks the tree itself)"},
+	})
 	return m
 }
